@@ -209,6 +209,11 @@ def cases_poses(seed, tier):
                 out.append({"rel": "arcgap", "a": a[:3] + [0.0, 0.0, 0.0], "b": b, "delta": d})   # un-rotated origin
             for s in STEP_COUNTS:
                 out.append({"rel": "ikpath", "a": a, "b": b, "steps": s})
+            if (i, j) in ((0, 1), (2, 5), (7, 3)):
+                # every step count on three pose pairs (a count derived from a float step is off by one only for some counts)
+                for s in range(2, (401 if tier == "thorough" else 201)):
+                    if s not in STEP_COUNTS:
+                        out.append({"rel": "ikpath", "a": a, "b": b, "steps": s})
             for k in range(n):
                 c = P[k]
                 for form in ("tm", "vec3", "vec2"):
